@@ -244,7 +244,8 @@ Definition entry_ok (prev : option rune) (acc : str) (s : seg) (rest : list seg)
 Lemma run_class_extract r b : run_class r b = 0 ->
   extract_initialisms (concat r) = Some (map lower_s r).
 Proof.
-  unfold run_class. destruct (words_eqb _ _) eqn:E; cbn [negb]; [|discriminate]. intros _.
+  unfold run_class. destruct (words_eqb (extract_initialisms (concat r)) _) eqn:E; cbn [negb];
+    [|destruct (longest_ok r); discriminate]. intros _.
   unfold words_eqb in E. destruct (extract_initialisms (concat r)); [|discriminate].
   apply strs_eqb_eq in E. subst. reflexivity.
 Qed.
@@ -319,7 +320,8 @@ Qed.
 
 Lemma run_class_mono r b : run_class r b = 0 -> run_class r false = 0.
 Proof.
-  unfold run_class. destruct (negb (words_eqb _ _)); [discriminate|]. intros _. reflexivity.
+  unfold run_class. destruct (negb (words_eqb (extract_initialisms (concat r)) _));
+    [destruct (longest_ok r); discriminate|]. intros _. reflexivity.
 Qed.
 
 Lemma fci_lastc pw : last_is is_lower pw = true -> fci (lastc pw) = true.
